@@ -43,6 +43,11 @@ HARNESSES = [
     H('n_de_borrowed', 'harness', ['C16', 'C03'], unwind=72, mem_gb=8, timeout=900,
       covers=['deserialize Ok', 'deserialize Err'],
       bounds='every ASCII string of length 0..=70 (borrowed)'),
+    H('n_de_prefix', 'harness', ['C16', 'C03'], unwind=72, mem_gb=8, timeout=900,
+      covers=['accepted with 0x prefix', 'accepted without prefix', 'rejected two-character prefix', 'rejected four-character prefix'],
+      bounds='0, 2 or 4 arbitrary ASCII characters followed by 64 fixed hex digits'),
+    H('n_de_probes', 'harness', ['C16', 'C03'], unwind=72, mem_gb=8, timeout=600,
+      bounds='eight concrete strings (repeated/upper-case prefix, blanks, 63/65 digits)'),
     H('n_de_owned', 'harness', ['C16', 'C03'], tier='thorough', unwind=72, mem_gb=8, timeout=1800,
       covers=['deserialize Ok', 'deserialize Err'],
       bounds='every ASCII string of length 0..=70 (owned String path)'),
